@@ -2,6 +2,7 @@ package main
 
 import (
 	"crypto/ecdh"
+	"crypto/ed25519"
 	"crypto/rand"
 	"fmt"
 	"net/netip"
@@ -134,6 +135,37 @@ func runC07(c *Ctx) error {
 		e.w.queue = nil
 		recv := e.R.links[e.P1.id.IP]
 
+		// genuine identities of everybody the harness created: the oracle below judges every ping by
+		// the key its claimed source address is really derived from, whatever the router has stored
+		genuine := map[netip.Addr]ed25519.PublicKey{X.IP: X.PublicKey, Y.IP: Y.PublicKey, Z.IP: Z.PublicKey,
+			e.P1.id.IP: e.P1.id.PublicKey, e.P2.id.IP: e.P2.id.PublicKey, self: e.R.id.PublicKey}
+		// in some scenarios the router first learns two relays it has never met from the hop records of
+		// one relayed announcement (origin S, chain P1 <- R2 <- R1)
+		var R1, R2 *m.Address
+		if si%3 == 1 {
+			S, err := newGeoIdentity()
+			if err != nil {
+				return err
+			}
+			if R1, err = newGeoIdentity(); err != nil {
+				return err
+			}
+			if R2, err = newGeoIdentity(); err != nil {
+				return err
+			}
+			genuine[S.IP], genuine[R1.IP], genuine[R2.IP] = S.PublicKey, R1.PublicKey, R2.PublicKey
+			if a, err := c08NewAnn(S, false, 9, time.Now().Add(time.Hour)); err == nil {
+				chain := []c08Rec{
+					{pub: e.P1.id.PublicAddress, delay: 5, fl: 3, rl: 4, signKey: e.P1.id.PrivateKey, ctx: a.ctx, flipAt: -1},
+					{pub: R2.PublicAddress, delay: 6, fl: 5, rl: 6, signKey: R2.PrivateKey, ctx: a.ctx, flipAt: -1},
+					{pub: R1.PublicAddress, delay: 7, fl: 7, rl: 8, signKey: R1.PrivateKey, ctx: a.ctx, flipAt: -1},
+				}
+				e.R.inject(append(append([]byte(nil), a.base...), c08Encode(chain)...), recv)
+				e.w.queue = nil
+				c.Count("prelude:relayed-announcement")
+			}
+		}
+
 		kx := func() []byte {
 			k, _ := ecdh.X25519().GenerateKey(rand.Reader)
 			return k.PublicKey().Bytes()
@@ -200,7 +232,29 @@ func runC07(c *Ctx) error {
 				usedErr[key] = true
 			}
 			variant := "valid"
-			switch c.Rng.IntN(12) {
+			switch c.Rng.IntN(14) {
+			case 12, 13:
+				// a relay the router only knows from a hop record sends a ping in the name of the next relay
+				// of that record chain, signed with its own key
+				if R1 != nil {
+					spec := pingSpec{from: R1, src: R2.IP, dst: self, msgType: frame.RouterPing, seqTime: nextCraftTime(), pingID: 4711}
+					np := c07Ping{src: R2.IP, hdrOK: true}
+					if c.Rng.IntN(2) == 0 {
+						spec.pingType = "disconnect"
+						spec.body, _ = cbor.Marshal(&router.DisconnectPingMsg{GoingDown: true})
+						np.kind, np.down, np.desc = 3, true, "disconnect-down=true"
+					} else {
+						spec.pingType = "hello"
+						np.mtu = 1400
+						spec.body, _ = cbor.Marshal(&router.HelloPingRequest{KeyExchange: kx(), KeyExchangeType: "ECDH-X25519/BLAKE3", MTU: np.mtu})
+						np.kind, np.desc = 0, "hello-request"
+					}
+					if d, err := craftPing(spec); err == nil {
+						np.data = d
+						p = np
+						variant = "relay-impersonates-next-relay"
+					}
+				}
 			case 10, 11:
 				// a forged frame of a flooded (hop ping) type that claims the source of an earlier accepted ping
 				// and carries exactly its timestamp: the duplicate tolerance of hop pings must not let it skip
@@ -298,6 +352,28 @@ func runC07(c *Ctx) error {
 				c.Violate("a ping crashed the router worker", "ping-panic", map[string]any{"ping": p.desc, "variant": variant})
 			}
 			changed := pre != post
+			// the property, judged by the genuine keys: a ping whose signature does not verify under the key
+			// its source address is derived from changes nothing
+			if stripFresh(pre) != stripFresh(post) && dstIsSelf { // (first-contact admission of a self-certifying identity is not an effect: stripFresh)
+				src := netip.AddrFrom16([16]byte(p.data[16:32]))
+				authentic := false
+				if gk, ok := genuine[src]; ok {
+					if pf, err := craftBuilder.ParseFrame(append([]byte(nil), p.data...), nil, 0); err == nil {
+						if fv, ok := pf.(*frame.FrameV1); ok {
+							ttl, fc := fv.TTL(), fv.FlowControl()
+							fv.SetTTL(0)
+							fv.SetFlowControl(0)
+							authentic = fv.VerifyRaw(gk) == nil
+							fv.SetTTL(ttl)
+							fv.SetFlowControl(fc)
+						}
+					}
+				}
+				if !authentic {
+					c.Violate(fmt.Sprintf("a ping (%s, %s) that is not signed by the key its source address is derived from changed router state", p.desc, variant), "not-genuine-effect",
+						map[string]any{"ping": p.desc, "variant": variant, "src": src.String(), "pre": pre, "post": post})
+				}
+			}
 			c.NonTrivial(fmt.Sprintf("%s/%s/%v", p.desc, variant, changed))
 			c.Count("variant:" + variant)
 			// property oracle: tampered, re-addressed and replayed pings change nothing projected
